@@ -30,16 +30,18 @@
 (* on the real compiler.                                                    *)
 (*                                                                          *)
 (* The environment (hash seed, job order, number of workers) is never read  *)
-(* by an action.  Invariants (key mode "exact", ALL interleavings): a job's *)
-(* names do not depend on the history of the memo it ran on                 *)
-(* (MemoHistoryIndependent), a memo key determines its value (MemoSound),   *)
-(* the final outputs are the fresh ones = what a job computes in a new      *)
-(* process with an empty memo (ScheduleIndependent).  Every final state is  *)
+(* by an action; the hash seed is therefore drawn in a last step (Observe)  *)
+(* instead of in Init: same classes, a quarter of the interleavings.        *)
+(* Invariants (key mode "exact", ALL interleavings): a job's names do not   *)
+(* depend on the history of the memo it ran on (MemoHistoryIndependent), a  *)
+(* memo key determines its value (MemoSound), the final outputs are the     *)
+(* fresh ones = what a job computes in a new process with an empty memo     *)
+(* (ScheduleIndependent).  Every final state is                             *)
 (* published with its process histories (hist[w] = the jobs process w ran,  *)
 (* in order); each class is executed with the real compiler: one real       *)
 (* process per model process, compiling its jobs in the published order;    *)
 (* outputs must be byte-identical to the fresh ones.                        *)
-EXTENDS Naturals, Sequences, FiniteSets, TLC, Json
+EXTENDS Integers, Sequences, FiniteSets, TLC, Json
 
 CONSTANTS Mods,        \* set of module ids
           Deps,        \* [Mods -> SUBSET Mods]
@@ -73,7 +75,7 @@ NoNamesK == [km \in KeyModes |-> NoNames]
 Empty == [src |-> "", deps |-> {}, names |-> NoNamesK]
 Partial == [src |-> "partial", deps |-> {}, names |-> NoNamesK]
 
-Init == /\ order \in Orders /\ seed \in Seeds /\ nw \in NWorkers
+Init == /\ order \in Orders /\ seed = -1 /\ nw \in NWorkers
         /\ queue = order
         /\ job = [w \in Workers |-> ""]
         /\ got = [w \in Workers |-> {}]            \* input files read so far by the running job
@@ -119,10 +121,12 @@ DoRead == \E w \in Workers : ReadOne(w)
 DoMemo == \E w \in Workers : Memo(w)
 DoTrunc == \E w \in Workers : Truncate(w)
 DoWrite == \E w \in Workers : Write(w)
-Next == DoTake \/ DoRead \/ DoMemo \/ DoTrunc \/ DoWrite
+Done == queue = <<>> /\ \A w \in Workers : pc[w] = "idle"
+Observe == /\ Done /\ seed = -1 /\ seed' \in Seeds
+           /\ UNCHANGED <<order, nw, queue, job, got, names, memo, hist, out, pc>>
+Next == DoTake \/ DoRead \/ DoMemo \/ DoTrunc \/ DoWrite \/ Observe
 Spec == Init /\ [][Next]_vars
 
-Done == queue = <<>> /\ \A w \in Workers : pc[w] = "idle"
 StaleK(km) == {m \in Mods : out[m].src # m \/ out[m].deps # Deps[m] \/ out[m].names[km] # FreshNames(m)}
 (* whatever the schedule, order and seed: the final outputs are the fresh ones *)
 ScheduleIndependent == Done => StaleK("exact") = {}
@@ -139,6 +143,6 @@ MemoPrivate == \A w \in Workers : \A km \in KeyModes : \A e \in memo[w][km] :
                        e = [k |-> Key(km, hist[w][i], d), v |-> Val(hist[w][i], d)]
 (* every final state = one environment class with its process histories; stale[km] = the outputs a memo keyed *)
 (* like hazard model km would get wrong in this history (the binding must execute histories that cover them)    *)
-Publish == (Dump /\ Done) => PrintT("@@" \o ToJson([order |-> order, seed |-> seed, nworkers |-> nw, hist |-> hist,
+Publish == (Dump /\ Done /\ seed # -1) => PrintT("@@" \o ToJson([order |-> order, seed |-> seed, nworkers |-> nw, hist |-> hist,
                                                      stale |-> [km \in KeyModes |-> StaleK(km)]]))
 =============================================================================
